@@ -612,12 +612,12 @@ def _to_c_expr(
             if isinstance(n.op, ast.Div):
                 # Python's ``/`` is true division even for two integers.
                 return f"(static_cast<float>({emit(n.left)}) / {emit(n.right)})"
-            if (
-                isinstance(n.op, ast.Add)
-                and isinstance(n.left, ast.Constant)
-                and isinstance(n.left.value, str)
+            if isinstance(n.op, ast.Add) and (
+                (isinstance(n.left, ast.Constant) and isinstance(n.left.value, str))
+                or (isinstance(n.left, ast.IfExp) and "String" in operand_types)
             ):
-                # Two C string literals cannot be added; make the left one a String.
+                # Two C string literals cannot be added (a conditional expression
+                # of literals is one too); make the left one a String.
                 return f"(String({emit(n.left)}) + {emit(n.right)})"
             if isinstance(n.op, (ast.FloorDiv, ast.Mod, ast.Pow)):
                 # C's ``/`` and ``%`` round towards zero (Python's towards minus
@@ -679,11 +679,19 @@ def _to_c_expr(
                 # ``a < f() < c`` evaluates f() once (and ``c`` only when ``a < f()``
                 # holds); repeating the operand's text would call it twice and
                 # doubles the text for every level of nesting.
-                steps = [f"auto __redu_c0 = {emit(n.left)};"]
+                def operand(node: ast.AST) -> str:
+                    text = emit(node)
+                    if isinstance(node, ast.Constant) and isinstance(node.value, str):
+                        # a bare literal would be a const char *, which the
+                        # Arduino String cannot be compared with from the left
+                        return f"String({text})"
+                    return text
+
+                steps = [f"auto __redu_c0 = {operand(n.left)};"]
                 for index, (token, comparator) in enumerate(
                     zip(op_tokens, n.comparators), start=1
                 ):
-                    steps.append(f"auto __redu_c{index} = {emit(comparator)};")
+                    steps.append(f"auto __redu_c{index} = {operand(comparator)};")
                     test = f"__redu_c{index - 1} {token} __redu_c{index}"
                     if index < len(op_tokens):
                         steps.append(f"if (!({test})) {{ return false; }}")
@@ -2774,7 +2782,10 @@ def _make_promotion_decls(
 
     declarations: List[VarDecl] = []
     for name in promoted_names:
-        cpp_type = promotion_info.get(name, _cpp_type(var_types.get(name, "int")))
+        # an entry belongs to the if-statement that has just recorded it: it is used
+        # up here, so that a variable of the same name lifted out of another block
+        # later (another scope, another type) is declared with its own type
+        cpp_type = promotion_info.pop(name, _cpp_type(var_types.get(name, "int")))
         decl = VarDecl(
             name=name,
             c_type=cpp_type,
